@@ -994,7 +994,7 @@ def run(ctx, only=None):
     for c in sc['classes']:
         im = Impl(c, sc['table'], U, ctx.rng)
         for stream, f in (('sweep', lambda: sweep(ctx, im, t)), ('membership', lambda: membership(ctx, im, t)),
-                          ('random', lambda: random_histories(ctx, im, t, ctx.n(12, 250), ctx.n(25, 40)))):
+                          ('random', lambda: random_histories(ctx, im, t, ctx.n(12, 1200), ctx.n(25, 40)))):
             try:
                 f()
             except Exception as e:  # noqa
